@@ -15,6 +15,7 @@ limitations under the License.
 package file
 
 import (
+	"bytes"
 	"compress/gzip"
 	"context"
 	"errors"
@@ -31,6 +32,7 @@ import (
 	"oras.land/oras-go/v2/content"
 	"oras.land/oras-go/v2/errdef"
 	"oras.land/oras-go/v2/internal/cas"
+	"oras.land/oras-go/v2/internal/descriptor"
 	"oras.land/oras-go/v2/internal/graph"
 	"oras.land/oras-go/v2/internal/ioutil"
 	"oras.land/oras-go/v2/internal/resolver"
@@ -231,7 +233,12 @@ func (s *Store) Push(ctx context.Context, expected ocispec.Descriptor, content i
 
 	if err := s.push(ctx, expected, content); err != nil {
 		if errors.Is(err, errSkipUnnamed) {
-			return nil
+			if s.ForceCAS {
+				return nil
+			}
+			// the unnamed content itself is discarded, but the named files it
+			// refers to may still need to be restored
+			return s.restoreDuplicatesOfSkipped(ctx, expected, content)
 		}
 		return err
 	}
@@ -290,7 +297,33 @@ func (s *Store) push(ctx context.Context, expected ocispec.Descriptor, content i
 // names.
 // See Store.ForceCAS for more info.
 func (s *Store) restoreDuplicates(ctx context.Context, desc ocispec.Descriptor) error {
-	successors, err := content.Successors(ctx, s, desc)
+	return s.restoreDuplicatesFrom(ctx, s, desc)
+}
+
+// restoreDuplicatesOfSkipped restores the successor files of an unnamed
+// manifest that is discarded because of Store.IgnoreNoName. The manifest is
+// read from r instead of the store.
+func (s *Store) restoreDuplicatesOfSkipped(ctx context.Context, desc ocispec.Descriptor, r io.Reader) error {
+	if !descriptor.IsManifest(desc) || desc.Size > defaultFallbackPushSizeLimit {
+		return nil
+	}
+	manifest, err := content.ReadAll(r, desc)
+	if err != nil {
+		return err
+	}
+	fetcher := content.FetcherFunc(func(context.Context, ocispec.Descriptor) (io.ReadCloser, error) {
+		return io.NopCloser(bytes.NewReader(manifest)), nil
+	})
+	if err := s.restoreDuplicatesFrom(ctx, fetcher, desc); err != nil {
+		return fmt.Errorf("failed to restore duplicated file: %w", err)
+	}
+	return nil
+}
+
+// restoreDuplicatesFrom restores successor files with same content but
+// different names. The content of desc is fetched from fetcher.
+func (s *Store) restoreDuplicatesFrom(ctx context.Context, fetcher content.Fetcher, desc ocispec.Descriptor) error {
+	successors, err := content.Successors(ctx, fetcher, desc)
 	if err != nil {
 		return err
 	}
